@@ -428,9 +428,19 @@ def observe_release(trace):
                      'polls_created': w.n_polls_created}
 
 
+_RUNS = [0]
+
+
 def run(scen):
     """Execute one scenario; returns a Trace."""
     W.install()
+    # gc is disabled while a simulation runs (Parser <-> coroutine cycles
+    # have __del__); collect between runs so 64 KiB session buffers held by
+    # cyclic garbage do not pile up.
+    _RUNS[0] += 1
+    if _RUNS[0] % 64 == 0:
+        W.set_current(None)
+        gc.collect()
     w = W.World(scen)
     W.set_current(w)
     trace = Trace()
